@@ -36,7 +36,7 @@ type c15Step struct {
 var c15NameRe = regexp.MustCompile(`^[.a-zA-Z0-9_-]+(#ephemeral)?$`)
 
 func c15NameClass(s, role string) string {
-	if (role == "topic" && s == c15ByTopic) || (role == "chan" && s == c15ByChan) {
+	if (role == "topic" && (s == c15ByTopic || s == c15ByEphTopic)) || (role == "chan" && (s == c15ByChan || s == c15ByEphChan)) {
 		return "bystander"
 	}
 	if len(s) >= 1 && len(s) <= 64 && c15NameRe.MatchString(s) {
@@ -214,8 +214,8 @@ func c15Session(rng *rand.Rand, addr string) ([]byte, []int) {
 	b.WriteString("IDENTIFY\n")
 	sizeAt = append(sizeAt, b.Len())
 	b.Write(c15Frame(body[rng.Intn(len(body))]))
-	topics := []string{"c15m_a", "c15m_b#ephemeral", c15ByTopic, c15RandName(rng, 1+rng.Intn(64))}
-	chans := []string{"c15m_c", "c15m_d#ephemeral", c15ByChan, c15RandName(rng, 1+rng.Intn(64))}
+	topics := []string{"c15m_a", "c15m_b#ephemeral", c15ByTopic, c15ByEphTopic, c15RandName(rng, 1+rng.Intn(64))}
+	chans := []string{"c15m_c", "c15m_d#ephemeral", c15ByChan, c15ByEphChan, c15RandName(rng, 1+rng.Intn(64))}
 	for i, n := 0, 2+rng.Intn(8); i < n; i++ {
 		t, c := topics[rng.Intn(len(topics))], chans[rng.Intn(len(chans))]
 		switch rng.Intn(6) {
@@ -429,8 +429,8 @@ func c15Mutate(args []string) int {
 				if steps[si].Row.Resp != "none" {
 					k++
 				}
-				if k == i || (si == len(steps)-1 && at == nil) {
-					at = &steps[si]
+				if k == i && steps[si].Row.Resp != "none" {
+					at = &steps[si] // the step whose answer this is
 					break
 				}
 			}
